@@ -178,9 +178,10 @@ class TorchBackend:
                         converted_args.append(torch.tensor(arg, device=self.device))
                     except (ValueError, TypeError):
                         converted_args.append(arg)
-                elif needs_tensor and isinstance(arg, (int, float)):
-                    # Convert Python scalars to tensors for functions that require it
-                    dtype = torch.float32 if isinstance(arg, float) else torch.int64
+                elif needs_tensor and isinstance(arg, (int, float, numpy.integer, numpy.floating)):
+                    # Convert Python and NumPy scalars (a=b on two scalars returns a NumPy
+                    # integer) to tensors for functions that require it
+                    dtype = torch.float32 if isinstance(arg, (float, numpy.floating)) else torch.int64
                     converted_args.append(torch.tensor(arg, dtype=dtype, device=self.device))
                 else:
                     converted_args.append(arg)
